@@ -10,6 +10,7 @@ import DriverLib.C04
 import DriverLib.C03
 import DriverLib.C06
 import DriverLib.C19
+import DriverLib.C05
 open Lean Drv
 
 def handlers : List (String → Json → Option (R Json)) := [
@@ -18,6 +19,7 @@ def handlers : List (String → Json → Option (R Json)) := [
   Drv.C03.handle,
   Drv.C06.handle,
   Drv.C19.handle,
+  Drv.C05.handle,
   fun _ _ => none]
 
 def dispatch (line : String) : Json :=
